@@ -251,6 +251,56 @@ theorem not_begins_params (mt params : Bytes) (h : ¬ BeginsWithFold mt grpcWebB
     rw [hf'.2] at h4
     exact semi_not_in_base (by simpa [lowerB] using h4)
 
+/-! ### ascii.EqualFold is byte-wise ASCII case equality -/
+
+set_option maxRecDepth 100000 in
+theorem lowerB_toNat_all : ∀ n, n < 256 →
+    (lowerB (UInt8.ofNat n)).toNat = if 65 ≤ n ∧ n ≤ 90 then n + 32 else n := by decide
+
+theorem lowerB_toNat (c : UInt8) : (lowerB c).toNat = if 65 ≤ c.toNat ∧ c.toNat ≤ 90 then c.toNat + 32 else c.toNat := by
+  have := lowerB_toNat_all c.toNat (UInt8.toNat_lt c)
+  simpa using this
+
+theorem lowerB_eq_iff (c k : UInt8) : lowerB c = lowerB k ↔ AsciiCaseEq c k := by
+  have hc := UInt8.toNat_lt c
+  have hk := UInt8.toNat_lt k
+  unfold AsciiCaseEq
+  rw [← UInt8.toNat_inj, lowerB_toNat, lowerB_toNat, ← UInt8.toNat_inj]
+  split <;> split <;> omega
+
+theorem equalFold_iff (cand kw : Bytes) : equalFold cand kw = true ↔ AsciiCaseEqs cand kw := by
+  unfold equalFold lower
+  simp only [Bool.and_eq_true, beq_iff_eq]
+  induction cand generalizing kw with
+  | nil => cases kw <;> simp [AsciiCaseEqs]
+  | cons c cs ih =>
+    cases kw with
+    | nil => simp [AsciiCaseEqs]
+    | cons k ks =>
+      simp only [List.length_cons, Nat.add_right_cancel_iff, List.map_cons, List.cons.injEq, AsciiCaseEqs]
+      rw [← ih ks, lowerB_eq_iff]
+      constructor
+      · rintro ⟨h1, h2, h3⟩; exact ⟨h2, h1, h3⟩
+      · rintro ⟨h2, h1, h3⟩; exact ⟨h1, h2, h3⟩
+
+theorem asciiCaseEqs_high (cand kw : Bytes) (hkw : ∀ b ∈ kw, b.toNat < 128) (h : AsciiCaseEqs cand kw) :
+    ∀ c ∈ cand, c.toNat < 128 := by
+  induction cand generalizing kw with
+  | nil => simp
+  | cons c cs ih =>
+    cases kw with
+    | nil => simp [AsciiCaseEqs] at h
+    | cons k ks =>
+      simp only [AsciiCaseEqs] at h
+      intro x hx
+      rcases List.mem_cons.1 hx with rfl | hx
+      · have hk := hkw k (by simp)
+        rcases h.1 with h1 | h1 | h1
+        · rw [h1]; exact hk
+        · omega
+        · omega
+      · exact ih ks (fun b hb => hkw b (List.mem_cons_of_mem _ hb)) h.2 x hx
+
 /-! ### parseMetadataQuery -/
 
 theorem lookup_put (md : MD) (k k' : Bytes) (v : List Bytes) :
